@@ -178,6 +178,7 @@ func (p *c14sPeerM) nconns() int {
 
 type c14sModel struct {
 	low   int
+	decay int // what a decay tick subtracts
 	now   time.Duration
 	peers [c14sNP]c14sPeerM
 	prot  [c14sNP][2]bool
@@ -288,12 +289,12 @@ func (m *c14sModel) dremove(p int) {
 	e.dSet, e.dVal = false, 0
 }
 
-// decayTick: DecayFixed(5), tag interval = resolution, so every decayer tick visits the tag.
+// decayTick: DecayFixed(m.decay), tag interval = resolution, so every decayer tick visits the tag.
 func (m *c14sModel) decayTick() {
 	for i := range m.peers {
 		e := &m.peers[i]
 		if e.exists && e.dSet {
-			if v := e.dVal - 5; v <= 0 {
+			if v := e.dVal - m.decay; v <= 0 {
 				e.dSet, e.dVal = false, 0
 			} else {
 				e.dVal = v
